@@ -14,8 +14,10 @@ import (
 	"os"
 	"os/exec"
 	"path/filepath"
+	"sort"
 	"strings"
 	"time"
+	"verif/harness/internal/corners"
 
 	"github.com/200sc/bebop"
 	"verif/harness/internal/filedump"
@@ -47,17 +49,74 @@ type stat struct {
 
 var (
 	st       = stat{Distribution: map[string]int{}}
+	st16     = stat{Distribution: map[string]int{}} // C16 through bebopfmt: what a successful -w run leaves on disk denotes the same schema
 	fails    = []failure{}
 	distinct = map[string]struct{}{}
 )
 
 func fail(kind, class, tool, scen, input, op, exp, obs, mdl, note string) {
 	st.FailuresTotal++
+	if len(input) > 400 {
+		input = input[:400]
+	}
 	if len(fails) < 200 {
-		if len(input) > 400 {
-			input = input[:400]
-		}
 		fails = append(fails, failure{"C19", kind, class, tool, scen, input, op, exp, obs, mdl, note})
+	}
+	if strings.Contains(class, "fmt-meaning") {
+		// the formatter changed what a schema means, seen through the tool: C16's business as well
+		st16.FailuresTotal++
+		if len(fails) < 260 {
+			fails = append(fails, failure{"C16", kind, class, tool, scen, input, op, exp, obs, mdl, note})
+		}
+	}
+}
+
+// multiFmt: one bebopfmt run over several files (as arguments, and as a directory). Every file must afterwards hold
+// exactly what formatting it alone gives, and denote the schema it denoted before.
+func multiFmt(texts []string) {
+	for _, asDir := range []bool{false, true} {
+		counter++
+		dir := filepath.Join(root, fmt.Sprintf("m%d", counter))
+		sub := filepath.Join(dir, "schemas")
+		os.MkdirAll(sub, 0o755)
+		var paths []string
+		for i, t := range texts {
+			p := filepath.Join(sub, fmt.Sprintf("f%d.bop", i))
+			os.WriteFile(p, []byte(t), 0o644)
+			paths = append(paths, p)
+		}
+		args := append([]string{"-w"}, paths...)
+		scen := fmt.Sprintf("bebopfmt -w <%d files>", len(texts))
+		if asDir {
+			args = []string{"-w", sub}
+			scen = fmt.Sprintf("bebopfmt -w <directory of %d files>", len(texts))
+		}
+		r := run(dir, nil, tools["bebopfmt"], args...)
+		st.Evaluations++
+		st.Distribution["bebopfmt/multi"]++
+		distinct["multi/"+scen+strings.Join(texts, "|")] = struct{}{}
+		if r.exit != 0 || r.timeout {
+			fail("oracle", "multi", "bebopfmt", scen, strings.Join(texts, "\n----\n"), "exit status", "0", fmt.Sprintf("exit %d: %s", r.exit, abbreviate(r.stdout)), "", "formatting several valid files failed")
+			os.RemoveAll(dir)
+			continue
+		}
+		for i, t := range texts {
+			st16.Evaluations++
+			want, kind := reference("bebopfmt", []byte(t))
+			after, _ := read(paths[i])
+			before, _, errBefore := parseBytes([]byte(t))
+			got, _, errAfter := parseFile(paths[i])
+			switch {
+			case errBefore != nil || kind != "ok":
+			case errAfter != nil:
+				fail("oracle", "multi,fmt-meaning", "bebopfmt", scen, t, fmt.Sprintf("ReadFile(file %d of %d after the run)", i+1, len(texts)), "parses", errAfter.Error()+" | "+abbreviate(after), "", "bebopfmt -w succeeded but a file no longer parses")
+			case got != before:
+				fail("oracle", "multi,fmt-meaning", "bebopfmt", scen, t, fmt.Sprintf("ReadFile(file %d of %d after the run)", i+1, len(texts)), abbreviate(before), abbreviate(got), "", "bebopfmt -w succeeded but a file now denotes a different schema")
+			case after != string(want):
+				fail("oracle", "multi", "bebopfmt", scen, t, fmt.Sprintf("file %d of %d after the run", i+1, len(texts)), abbreviate(string(want)), abbreviate(after), "", "a file formatted together with others differs from the file formatted alone")
+			}
+		}
+		os.RemoveAll(dir)
 	}
 }
 
@@ -302,6 +361,7 @@ func runScenario(sc scenario) {
 			fail("oracle", class, sc.tool, scen, sc.in.text, "target after a successful run", "the generated / formatted bytes", fmt.Sprintf("%s %q", state, abbreviate(after)), "", "exit 0 without the expected output")
 		}
 		if sc.tool == "bebopfmt" && sc.fault != "missing-input" {
+			st16.Evaluations++
 			before, _, errBefore := parseBytes(text)
 			got, _, errAfter := parseFile(target)
 			if errBefore == nil {
@@ -460,13 +520,41 @@ func main() {
 			runScenario(scenario{tool: "bebopfmt", in: in, fault: fl, had: true, class: in.name})
 		}
 	}
+	// the hand-written corner schemas (those the formatter accepts), through bebopfmt -w without a fault
+	for _, c := range corners.Texts() {
+		if len(c) > 3000 {
+			continue
+		}
+		runScenario(scenario{tool: "bebopfmt", in: input{"corner", c}, fault: "none", had: true, class: "corner"})
+	}
+	// several files in one bebopfmt run (a large one first, then smaller ones; all valid)
+	{
+		var valid []string
+		for _, in := range all {
+			if _, k := reference("bebopfmt", []byte(in.text)); k == "ok" {
+				if _, _, err := parseBytes([]byte(in.text)); err == nil {
+					valid = append(valid, in.text)
+				}
+			}
+		}
+		sort.SliceStable(valid, func(i, j int) bool { return len(valid[i]) > len(valid[j]) })
+		for i := 0; i+2 < len(valid) && i < 12; i += 3 {
+			multiFmt([]string{valid[i], valid[len(valid)-1-i], valid[i+1]})
+		}
+		if len(valid) >= 2 {
+			multiFmt([]string{valid[0], valid[len(valid)-1]})
+		}
+	}
 	st.Samples = append(st.Samples,
 		"bebopc-go -i in.bop (struct A defined twice) -o out.go, out.go holding previous contents: exit 1, out.go unchanged",
 		"bebopfmt -w schema.bop with the first write(2) of the process failing with ENOSPC (strace inject): exit 1, schema.bop unchanged")
+	st16.DistinctNontrivial = st16.Evaluations
+	st16.Rule = "every successful bebopfmt -w run of the cli engine (one file; several files as arguments and as a directory): each file afterwards parses and denotes the schema it denoted before"
+	st16.Samples = []string{}
 	st.DistinctNontrivial = len(distinct)
 	st.Rule = "tools built from the current tree; inputs: 5 fixed (valid, unparsable x2, validation-failing x2) + Lean-generated valid and single-error schemas; bebopc-go faults: none, missing input, target in a missing directory, target is a directory, target is a symbolic link to the previous output, file-size limit (the write stops after 512 bytes and fails with EFBIG), first write(2) failing with ENOSPC / EIO, SIGKILL on entry to the first write, SIGKILL after a 512-byte partial write (strace inject), each with and without a previous target; bebopfmt -w faults: the same except the two target-directory ones. Per run: exit status vs report, target before/after, success => bytes equal the in-process Generate / Format output and (bebopfmt) same schema; model answer compared. distinct = distinct (tool, input, fault, target state)"
 	res := map[string]interface{}{"engine": "cli", "seed": *seed, "tier": *tier,
-		"stats": map[string]interface{}{"C19": st}, "failures": fails, "strace": haveStrace}
+		"stats": map[string]interface{}{"C19": st, "C16": st16}, "failures": fails, "strace": haveStrace}
 	b, _ := json.MarshalIndent(res, "", " ")
 	if *out != "" {
 		if err := os.WriteFile(*out, b, 0o644); err != nil {
